@@ -5,6 +5,7 @@ CONSTANTS
   RootSlots <- Slots12
   Realms = {1, 2}
   MaxOps = 3
+  MaxOps1 = 3
   MaxTx = 2
   OwnerFix = TRUE
   AttachGuard = TRUE
